@@ -9,8 +9,11 @@ setting a value passed explicitly to `Parallel` wins over the innermost enclosin
 wins over outer contexts, which win over the defaults; `require='sharedmem'` always yields a
 thread-based backend and `prefer` is only a hint that an explicitly chosen backend overrides.
 
-Quantifier reached here: program trees of ANY depth and width (the statement asks depth ≤ 4), any
-number of threads under ANY interleaving of their steps, all eight keys, arbitrary values
+Quantifier reached here: program trees of ANY depth and width (the statement asks depth ≤ 4), and
+GENERAL programs (`XProg`: `with` blocks plus context objects made by plain calls, `unregister()` on
+any object at any time in any order any number of times, raising bodies); any number of threads
+under ANY interleaving of their steps, threads started at any point in any of three ways
+(`threading.Thread`, a thread in a copied `contextvars` context, `asyncio.to_thread`); all eight keys, arbitrary values
 (`None`, integers, strings, backend instances of the four classes with or without a nesting level),
 every combination of explicit `Parallel` arguments, any defaults table and any `DEFAULT_BACKEND`.
 
@@ -19,6 +22,9 @@ Model: `JoblibModel.Config`. It is the code of the pinned tree with two one-line
   from a context did not stop an explicitly named process backend (`sharedmem_unrepaired_counterexample`);
 * F22 — `_get_active_backend` replaced the context's `n_jobs` by 1 in every thread fallback, also
   when the context had not chosen any backend (`n_jobs_unrepaired_counterexample`).
+Three variants of the code that the property excludes are switches of the model (`Variant`), each
+with a witness: `guarded_unregister_counterexample`, `context_var_counterexample`,
+`gab_literal_defaults_counterexample`. All other theorems are about `Variant.code`.
 What remains partial after the repairs (policy pinned by joblib's own test-suite, listed as a known
 finding): when the backend chosen *in a context* is replaced by the thread fallback because of
 `require='sharedmem'`, the context's `n_jobs` is replaced by 1 (`precedence_n_jobs_partial`,
@@ -69,43 +75,59 @@ theorem exit_restores_block (args : Config) (body k : Prog) (c : Config) (cm : C
   · rfl
   · rw [hold]
 
-/-- The tree semantics and the step machine agree: replaying the steps a program executed, from a
-thread state with configuration `c` and any stack of outer blocks, ends in the configuration `run`
-computes with the same stack — hence (with `exit_restores`) in the state it started from. -/
-theorem run_ops (env : Env) (p : Prog) (c : Config) (stk : List Ctx) :
-    (runThread env ⟨c, stk⟩ (run p c).ops).1 = ⟨(run p c).cfg, stk⟩ := by
-  induction p generalizing c stk with
-  | done => rfl
-  | par e k ih => simp only [run, runThread_cons, step]; exact ih c stk
-  | gab p q v k ih => simp only [run, runThread_cons, step]; exact ih c stk
+/-- The tree semantics and the step machine agree: replaying the steps a program executed, from ANY
+thread state (any configuration, any stack of outer blocks, any objects made earlier), ends in
+the configuration `run` computes with the same stack of outer blocks — hence (with `exit_restores`)
+in the configuration it started from. -/
+theorem run_ops (env : Env) (p : Prog) (s : TState) :
+    (runThread env s (run p s.cfg).ops).1.cfg = (run p s.cfg).cfg ∧
+    (runThread env s (run p s.cfg).ops).1.stack = s.stack := by
+  induction p generalizing s with
+  | done => exact ⟨rfl, rfl⟩
+  | par e k ih => simp only [run, runThread_cons]; exact ih s
+  | gab p q v k ih => simp only [run, runThread_cons]; exact ih s
   | block args body k ihb ihk =>
     simp only [run]
-    cases h : parallelConfigInit c args with
-    | error e => simp [runThread, step, h]
+    cases h : parallelConfigInit s.cfg args with
+    | error e =>
+      have hs : (step env s (.enter args)).1 = s := by simp only [step, stepV, createObj_error h]
+      rw [runThread_cons, runThread_nil, hs]
+      exact ⟨rfl, rfl⟩
     | ok r =>
       obtain ⟨cm, c'⟩ := r
+      have hold : unregister cm = s.cfg := (parallelConfigInit_ok h).1
+      have hst := step_enter_ok env h
+      obtain ⟨hb1, hb2⟩ := ihb (step env s (.enter args)).1
+      rw [hst] at hb1 hb2
+      dsimp only at hb1 hb2
       simp only []
       split
       · dsimp only
-        rw [List.cons_append, runThread_cons]
-        simp only [step, h]
-        rw [runThread_append, ihb c' (cm :: stk)]
-        simp [runThread, step]
+        rw [List.cons_append, runThread_cons, runThread_append, runThread_cons, runThread_nil, hst]
+        rw [step_exit_cons env hb2]
+        exact ⟨rfl, rfl⟩
       · dsimp only
-        rw [List.cons_append, runThread_cons]
-        simp only [step, h]
-        rw [runThread_append, ihb c' (cm :: stk), runThread_cons]
-        simp only [step]
-        exact ihk (unregister cm) stk
-  | raise => rfl
+        rw [List.cons_append, runThread_cons, runThread_append, runThread_cons, hst]
+        rw [step_exit_cons env hb2]
+        have := ihk { (runThread env ⟨c', ⟨s.objs.length, cm, s.cur⟩ :: s.stack,
+            s.objs ++ [⟨s.objs.length, cm, s.cur⟩], some s.objs.length⟩ (run body c').ops).1 with
+              stack := s.stack, cfg := cm.old_parallel_config, cur := s.cur }
+        simp only [] at this
+        rw [show cm.old_parallel_config = unregister cm from rfl] at this ⊢
+        exact this
+  | raise => exact ⟨rfl, rfl⟩
   | try_ body k ihb ihk =>
     simp only [run]
-    rw [runThread_append, ihb c stk]
-    exact ihk _ stk
+    rw [runThread_append]
+    obtain ⟨hb1, hb2⟩ := ihb s
+    have := ihk (runThread env s (run body s.cfg).ops).1
+    rw [hb1, hb2] at this
+    exact this
 
 theorem exit_restores_steps (env : Env) (p : Prog) (s : TState) :
-    (runThread env s (run p s.cfg).ops).1 = s := by
-  have := run_ops env p s.cfg s.stack
+    (runThread env s (run p s.cfg).ops).1.cfg = s.cfg ∧
+    (runThread env s (run p s.cfg).ops).1.stack = s.stack := by
+  have := run_ops env p s
   rw [exit_restores] at this
   exact this
 
@@ -122,24 +144,29 @@ theorem unregister_out_of_order_counterexample :
 
 /-! ## Thread-locality -/
 
-/-- `thread_frame`. Steps of other threads never change thread `t`'s configuration or block stack,
-for any interleaving. -/
+/-- `thread_frame`. Steps of other threads never change thread `t`'s configuration, block stack or
+objects, for any interleaving — as long as `t` is not a thread they START (`spawn t`: a thread is
+started once, before its first step). -/
 theorem thread_frame (env : Env) (sched : List (Nat × Op)) (g : Global) (t : Nat)
-    (h : ∀ x ∈ sched, x.1 ≠ t) : (grun env g sched).1 t = g t := by
+    (h : ∀ x ∈ sched, x.1 ≠ t ∧ ∀ k, x.2 ≠ .spawn t k) : (grun env g sched).1 t = g t := by
   induction sched generalizing g with
   | nil => rfl
   | cons x rest ih =>
     obtain ⟨u, op⟩ := x
-    simp only [grun]
-    have hu : u ≠ t := h (u, op) (by simp)
-    rw [ih _ (fun y hy => h y (by simp [hy]))]
-    simp only [gstep]
-    rw [if_neg (Ne.symm hu)]
+    simp only [grun, grunV]
+    have hu := h (u, op) (by simp)
+    have := ih (gstepV Variant.code env g u op).1 (fun y hy => h y (by simp [hy]))
+    simp only [grun] at this
+    rw [this]
+    exact gstepV_other Variant.code env g hu.1 hu.2
 
 /-- Non-interference, the strong form: under ANY interleaving with any other threads, thread `t`
-ends in the state, and sees exactly the results (every `Parallel(...)` and `get_active_backend()`
-observation), it would have had running its own steps alone. -/
-theorem thread_noninterference (env : Env) (sched : List (Nat × Op)) (g : Global) (t : Nat) :
+(not started again in the meantime) ends in the state, and sees exactly the results (every
+`Parallel(...)` and `get_active_backend()` observation), it would have had running its own steps
+alone — whatever the steps are: `with` blocks, objects made by plain calls, `unregister()` in any
+order, threads it starts. -/
+theorem thread_noninterference (env : Env) (sched : List (Nat × Op)) (g : Global) (t : Nat)
+    (h : ∀ x ∈ sched, ∀ k, x.2 ≠ .spawn t k) :
     ((grun env g sched).1 t,
       (grun env g sched).2.filterMap (fun x => if x.1 = t then some x.2 else none)) =
     runThread env (g t) (sched.filterMap (fun x => if x.1 = t then some x.2 else none)) := by
@@ -147,31 +174,40 @@ theorem thread_noninterference (env : Env) (sched : List (Nat × Op)) (g : Globa
   | nil => rfl
   | cons x rest ih =>
     obtain ⟨u, op⟩ := x
-    simp only [grun]
+    simp only [grun, grunV]
+    have hsp := h (u, op) (by simp)
+    have := ih (gstepV Variant.code env g u op).1 (fun y hy => h y (by simp [hy]))
+    simp only [grun] at this
     by_cases hu : u = t
     · subst hu
-      have := ih (gstep env g u op).1
-      simp only [gstep, if_true] at this ⊢
-      simp only [List.filterMap_cons, if_true, runThread]
-      rw [← this]
-    · have := ih (gstep env g u op).1
-      simp only [gstep] at this ⊢
-      rw [if_neg (Ne.symm hu)] at this
-      simp only [List.filterMap_cons, if_neg hu]
-      exact this
+      have gs := gstepV_self Variant.code env g hsp
+      have gs1 : (gstepV Variant.code env g u op).1 u = (stepV Variant.code env (g u) op).1 :=
+        congrArg Prod.fst gs
+      have gs2 : (gstepV Variant.code env g u op).2 = (stepV Variant.code env (g u) op).2 :=
+        congrArg Prod.snd gs
+      rw [gs1] at this
+      have e1 := congrArg Prod.fst this
+      have e2 := congrArg Prod.snd this
+      simp only [runThread] at e1 e2
+      simp only [List.filterMap_cons, if_true, runThread, runThreadV]
+      rw [gs2, ← e1, ← e2]
+    · simp only [List.filterMap_cons, if_neg hu]
+      rw [this, gstepV_other Variant.code env g hu hsp]
 
 /-! ## Precedence -/
 
 /-- At every point a thread can reach, its configuration is determined by the blocks it is inside
 (`enclosing`: their effective arguments, innermost first) and by nothing else — not by blocks
-already left, not by other threads. -/
-theorem reachable_cfg (env : Env) (ops : List Op) :
+already left, not by other threads. (`hops`: the thread uses `with` blocks only; what objects made
+by plain calls and `unregister()` by hand do is `unregister_is_restore` / `unreg_exact`.) -/
+theorem reachable_cfg (env : Env) (ops : List Op) (hops : ∀ op ∈ ops, op.scoped = true) :
     (runThread env TState.init ops).1.cfg = stackCfg (enclosing [] ops) :=
-  runThread_inv env ops [] TState.init rfl trivial
+  runThread_inv env ops hops [] TState.init rfl trivial
 
 /-- `precedence`. The value resolved for key `k` at a program point is the explicit argument if one
 is given, else the value of the innermost enclosing block that sets `k`, else the default. -/
-theorem precedence (env : Env) (ops : List Op) (explicit : Slot) (k : Key) :
+theorem precedence (env : Env) (ops : List Op) (hops : ∀ op ∈ ops, op.scoped = true)
+    (explicit : Slot) (k : Key) :
     getConfigParam env.d explicit (runThread env TState.init ops).1.cfg k =
       match explicit with
       | some v => v
@@ -179,7 +215,7 @@ theorem precedence (env : Env) (ops : List Op) (explicit : Slot) (k : Key) :
         match (enclosing [] ops).findSome? (·.get k) with
         | some v => v
         | none => env.d.get k := by
-  rw [reachable_cfg]
+  rw [reachable_cfg env ops hops]
   unfold getConfigParam
   cases explicit with
   | some v => rfl
@@ -525,6 +561,286 @@ theorem prefer_decides_default :
         { Config.unset with prefer := some (.str "processes") }).toOption.map
         (·.backend.cls) = some .loky := by decide
 
+/-! ## General programs: objects made by plain calls, `unregister()` in any order, started threads -/
+
+/-- The big-step semantics of general programs and the step machine agree: replaying the steps a
+program executed ends in the state `xrun` computes (all of it: configuration, stack of enclosing
+blocks, objects made, identity of the active dictionary). -/
+theorem xrun_ops (env : Env) (p : XProg) (s : TState) :
+    (runThread env s (xrun p s).ops).1 = (xrun p s).state := by
+  induction p generalizing s with
+  | done => rfl
+  | par e k ih => simp only [xrun, runThread_cons]; exact ih s
+  | gab p q v k ih => simp only [xrun, runThread_cons]; exact ih s
+  | block args body k ihb ihk =>
+    simp only [xrun]
+    cases h : createObj s args with
+    | error e =>
+      have hs : (step env s (.enter args)).1 = s := by simp only [step, stepV, h]
+      simp only []
+      rw [runThread_cons, runThread_nil, hs]
+    | ok r =>
+      obtain ⟨o, s'⟩ := r
+      have hst : (step env s (.enter args)).1 = { s' with stack := o :: s'.stack } := by
+        simp only [step, stepV, h]
+      simp only []
+      split
+      · dsimp only
+        rw [List.cons_append, runThread_cons, runThread_append, runThread_cons, runThread_nil, hst, ihb]
+        rfl
+      · dsimp only
+        rw [List.cons_append, runThread_cons, runThread_append, runThread_cons, hst, ihb]
+        exact ihk _
+  | create args k ih =>
+    simp only [xrun]
+    cases h : createObj s args with
+    | error e =>
+      have hs : (step env s (.create args)).1 = s := by simp only [step, stepV, h]
+      simp only []
+      rw [runThread_cons, runThread_nil, hs]
+    | ok r =>
+      obtain ⟨o, s'⟩ := r
+      have hst : (step env s (.create args)).1 = s' := by simp only [step, stepV, h]
+      simp only []
+      rw [runThread_cons, hst]
+      exact ih _
+  | unreg i k ih => simp only [xrun, runThread_cons]; exact ih _
+  | raise => rfl
+  | try_ body k ihb ihk =>
+    simp only [xrun]
+    rw [runThread_append, ihb]
+    exact ihk _
+
+/-- `exit_restores_whatever_the_body_left`. For EVERY general program: when the `with` block of an
+object exits — `rb.raised = false`: normally, `rb.raised = true`: by an exception — the thread's
+configuration (and the identity of the active dictionary, and the stack of enclosing blocks) is
+exactly what it was when the object was made, WHATEVER the body did: made objects by plain calls
+and left them registered, unregistered any object in any order (this block's own object included),
+nested further blocks, raised. `after` is the state right after `__exit__`; the last two clauses
+say that this is where the program goes on (or from where the exception propagates). -/
+theorem exit_restores_whatever_the_body_left (args : Config) (body k : XProg) (s : TState)
+    (o : Obj) (s' : TState) (h : createObj s args = .ok (o, s')) :
+    let rb := xrun body { s' with stack := o :: s'.stack }
+    let after := (exitStep Variant.code rb.state).1
+    after.cfg = s.cfg ∧ after.cur = s.cur ∧ after.stack = s.stack ∧ after.objs = rb.state.objs ∧
+    (xrun (.block args body k) s).state = (if rb.raised then after else (xrun k after).state) ∧
+    (xrun (.block args body k) s).raised = (if rb.raised then true else (xrun k after).raised) := by
+  intro rb after
+  obtain ⟨hp, _, hown, hstk, _, _⟩ := createObj_ok h
+  have hold : o.cm.old_parallel_config = s.cfg := (parallelConfigInit_ok hp).1
+  have hb : rb.state.stack = o :: s'.stack := xrun_stack body _
+  have he : after =
+      { rb.state with stack := s'.stack, cfg := o.cm.old_parallel_config, cur := o.oldOwner } :=
+    exitStep_cons hb
+  refine ⟨by rw [he]; exact hold, by rw [he]; exact hown, by rw [he]; exact hstk, by rw [he], ?_, ?_⟩
+  · simp only [xrun, h]
+    split <;> rfl
+  · simp only [xrun, h]
+    split <;> rfl
+
+/-- `unreg_exact`: what `cm_k.unregister()` does, exactly — it puts back the configuration that
+was active when `cm_k` was made (and nothing else changes), whichever objects were made or
+unregistered since, whether `cm_k` is "the current one" or not, whether it was unregistered
+before or not. -/
+theorem unreg_exact (env : Env) (s : TState) (k : Nat) (o : Obj) (h : s.objs[k]? = some o) :
+    (step env s (.unreg k)).1 = { s with cfg := o.cm.old_parallel_config, cur := o.oldOwner } := by
+  simp only [step, stepV, unregStep, h, unregisterV_code]
+
+/-- `unregister_is_restore`. An object is made (by a plain call: `mk = create`, or by a `with`
+statement: `mk = enter`) in state `s`; then the thread does ANYTHING (`ops`: any steps, in any
+order, any number of them); then it calls `unregister()` on that object. The configuration is
+the one of `s` again, nothing else changes, and a second `unregister()` changes nothing
+(idempotent). -/
+theorem unregister_is_restore (env : Env) (s : TState) (args : Config) (mk : Op) (ops : List Op)
+    (hmk : mk = .create args ∨ mk = .enter args) {cm : Ctx} {cfg : Config}
+    (hok : parallelConfigInit s.cfg args = .ok (cm, cfg)) :
+    let k := s.objs.length
+    let s2 := (runThread env s (mk :: ops)).1
+    let s3 := (step env s2 (.unreg k)).1
+    s3.cfg = s.cfg ∧ s3.cur = s.cur ∧ s3.stack = s2.stack ∧ s3.objs = s2.objs ∧
+      (step env s3 (.unreg k)).1 = s3 := by
+  intro k s2 s3
+  have hc := createObj_of_ok hok
+  have hget1 : (step env s mk).1.objs[k]? = some ⟨s.objs.length, cm, s.cur⟩ := by
+    rcases hmk with rfl | rfl <;> simp [step, stepV, hc, k]
+  have hget2 : s2.objs[k]? = some ⟨s.objs.length, cm, s.cur⟩ := by
+    show (runThread env s (mk :: ops)).1.objs[k]? = _
+    rw [runThread_cons]
+    exact runThreadV_objs_get Variant.code env ops _ k _ hget1
+  have h3 : s3 = { s2 with cfg := cm.old_parallel_config, cur := s.cur } :=
+    unreg_exact env s2 k _ hget2
+  have hold : cm.old_parallel_config = s.cfg := (parallelConfigInit_ok hok).1
+  refine ⟨by rw [h3]; exact hold, by rw [h3], by rw [h3], by rw [h3], ?_⟩
+  have hget3 : s3.objs[k]? = some ⟨s.objs.length, cm, s.cur⟩ := by rw [h3]; exact hget2
+  rw [unreg_exact env s3 k _ hget3, h3]
+
+/-- `unregister()` out of order, stated exactly. Two objects `a` then `b` made by plain calls:
+unregistering in LIFO order (`b`, `a`) or `a` alone gives the starting configuration back;
+unregistering `a` FIRST and then `b` leaves the configuration `b` saved, i.e. the one with `a`'s
+settings — `b.unregister()` puts back what was active when `b` was made, not what is "underneath"
+now. (That is the code's behaviour and what the harness observes; it is why the property speaks of
+`with` blocks.) -/
+theorem unregister_out_of_order (env : Env) (s : TState) (a b : Config) {cm1 cm2 : Ctx}
+    {c1 c2 : Config} (h1 : parallelConfigInit s.cfg a = .ok (cm1, c1))
+    (h2 : parallelConfigInit c1 b = .ok (cm2, c2)) :
+    let k := s.objs.length
+    (runThread env s [.create a, .create b, .unreg (k + 1), .unreg k]).1.cfg = s.cfg ∧
+    (runThread env s [.create a, .create b, .unreg k]).1.cfg = s.cfg ∧
+    (runThread env s [.create a, .create b, .unreg k, .unreg (k + 1)]).1.cfg = c1 := by
+  intro k
+  refine ⟨?_, ?_, ?_⟩
+  · have := (unregister_is_restore env s a (.create a) [.create b, .unreg (k + 1)] (.inl rfl) h1).1
+    simp only [runThread_cons, runThread_nil] at this ⊢
+    exact this
+  · have := (unregister_is_restore env s a (.create a) [.create b] (.inl rfl) h1).1
+    simp only [runThread_cons, runThread_nil] at this ⊢
+    exact this
+  · have hsa : (step env s (.create a)).1 =
+        { s with cfg := c1, objs := s.objs ++ [⟨s.objs.length, cm1, s.cur⟩],
+                 cur := some s.objs.length } := by
+      simp only [step, stepV, createObj_of_ok h1]
+    have := (unregister_is_restore env
+      { s with cfg := c1, objs := s.objs ++ [⟨s.objs.length, cm1, s.cur⟩], cur := some s.objs.length }
+      b (.create b) [.unreg k] (.inl rfl) h2).1
+    simp only [runThread_cons, runThread_nil, List.length_append, List.length_cons,
+      List.length_nil] at this
+    simp only [runThread_cons, runThread_nil, hsa]
+    exact this
+
+/-- `balanced_program_restores`: the tree-shaped theorem (`exit_restores`) as a corollary of the
+general one — a program made of `with` blocks only, run from any thread state (inside any blocks,
+after any objects made by plain calls), gives back the configuration, the active dictionary and
+the stack it started with. -/
+theorem balanced_program_restores (p : Prog) (s : TState) :
+    (xrun p.embed s).state.cfg = s.cfg ∧ (xrun p.embed s).state.cur = s.cur ∧
+      (xrun p.embed s).state.stack = s.stack := by
+  refine ⟨?_, ?_, xrun_stack _ _⟩
+  · induction p generalizing s with
+    | done => rfl
+    | par e k ih => exact ih s
+    | gab p q v k ih => exact ih s
+    | block args body k _ ihk =>
+      cases h : createObj s args with
+      | error e => simp only [Prog.embed, xrun, h]
+      | ok r =>
+        obtain ⟨o, s'⟩ := r
+        obtain ⟨h1, _, _, _, h5, _⟩ :=
+          exit_restores_whatever_the_body_left args body.embed k.embed s o s' h
+        simp only [Prog.embed]
+        rw [h5]
+        split
+        · exact h1
+        · rw [ihk, h1]
+    | raise => rfl
+    | try_ body k ihb ihk => simp only [Prog.embed, xrun]; rw [ihk, ihb]
+  · induction p generalizing s with
+    | done => rfl
+    | par e k ih => exact ih s
+    | gab p q v k ih => exact ih s
+    | block args body k _ ihk =>
+      cases h : createObj s args with
+      | error e => simp only [Prog.embed, xrun, h]
+      | ok r =>
+        obtain ⟨o, s'⟩ := r
+        obtain ⟨_, h2, _, _, h5, _⟩ :=
+          exit_restores_whatever_the_body_left args body.embed k.embed s o s' h
+        simp only [Prog.embed]
+        rw [h5]
+        split
+        · exact h2
+        · rw [ihk, h2]
+    | raise => rfl
+    | try_ body k ihb ihk => simp only [Prog.embed, xrun]; rw [ihk, ihb]
+
+/-- `new_thread_starts_from_defaults`. A thread `u` started by thread `t` — in any of the three ways,
+whatever `t`'s configuration is at that moment, whatever all other threads do afterwards (`sched`:
+any steps of threads other than `u`) — is in the initial state: default configuration, inside no
+block, no objects; a `Parallel(...)` it constructs is the one constructed under the defaults. -/
+theorem new_thread_starts_from_defaults (env : Env) (g : Global) (t u : Nat) (kind : SpawnKind)
+    (sched : List (Nat × Op)) (h : ∀ x ∈ sched, x.1 ≠ u ∧ ∀ k, x.2 ≠ .spawn u k) (e : Config) :
+    let g' := (grun env (gstep env g t (.spawn u kind)).1 sched).1
+    g' u = TState.init ∧ parallelInit env (g' u).cfg e = parallelInit env Config.unset e := by
+  intro g'
+  have h1 : g' u = TState.init := by
+    show (grun env (gstep env g t (.spawn u kind)).1 sched).1 u = _
+    rw [thread_frame env sched _ u h]
+    simp [gstep, gstepV, childInit, Variant.code]
+  exact ⟨h1, by rw [h1]; rfl⟩
+
+/-- `other_threads_unaffected`, for the general programs: whatever the other threads do — blocks,
+objects made by plain calls and left registered, `unregister()` in any order, starting further
+threads (other than `t`) — thread `t`'s state does not change, and neither does anything it can
+observe (`Parallel(...)`, `get_active_backend(...)`). -/
+theorem other_threads_unaffected (env : Env) (sched : List (Nat × Op)) (g : Global) (t : Nat)
+    (h : ∀ x ∈ sched, x.1 ≠ t ∧ ∀ k, x.2 ≠ .spawn t k) (e : Config) (p r v : Slot) :
+    (grun env g sched).1 t = g t ∧
+    parallelInit env ((grun env g sched).1 t).cfg e = parallelInit env (g t).cfg e ∧
+    getActiveBackend env ((grun env g sched).1 t).cfg p r v = getActiveBackend env (g t).cfg p r v := by
+  have := thread_frame env sched g t h
+  exact ⟨this, by rw [this], by rw [this]⟩
+
+/-- `gab_agrees_with_parallel`. At the same place (same thread configuration `cfg`, any defaults,
+any `DEFAULT_BACKEND`), `get_active_backend()` and `Parallel()` — both without arguments — agree:
+same backend (class and nesting level); the same `n_jobs` whenever `get_active_backend` reports
+one (it reports `None` when no context sets it, `Parallel` then uses the backend's default); and
+under `require='sharedmem'` (from any enclosing context) the reported backend supports shared
+memory. -/
+theorem gab_agrees_with_parallel {env : Env} {cfg : Config} {g : GabObs} {r : ParObs}
+    (hg : getActiveBackend env cfg none none none = .ok g)
+    (hp : parallelInit env cfg Config.unset = .ok r) :
+    g.backend = r.backend ∧ (g.n_jobs ≠ .none → toInt g.n_jobs = .ok r.n_jobs) ∧
+    (getConfigParam env.d none cfg .require = .str "sharedmem" →
+      g.backend.cls.supportsSharedmem = true) := by
+  obtain ⟨a, ha, _, _, _, _, _, _, _, hch, hnj, _⟩ := parallelInit_ok hp
+  have ha' : getActiveBackend' env cfg none none none = .ok a := ha
+  simp only [getActiveBackend, ha', bind, Except.bind, pure, Except.pure] at hg
+  have hg' := Except.ok.inj hg
+  subst hg'
+  refine ⟨Except.ok.inj hch, ?_, fun hr => sharedmem_is_threads_active ha' hr⟩
+  intro hne
+  simp only [] at hne
+  have : resolveNJobs env.d none a.config r.backend.cls = .ok r.n_jobs := hnj
+  unfold resolveNJobs at this
+  simpa [hne] using this
+
+/-! ### The three seeded variants are excluded (witnesses) -/
+
+/-- Variant `guardedUnregister` (seeded C17-r4-m2): `with parallel_config(n_jobs=2):` whose body
+calls `parallel_backend("threading", n_jobs=4)` and leaves it registered — after the block the
+variant still has the settings, joblib is back at the defaults. -/
+theorem guarded_unregister_counterexample :
+    let ops := [Op.enter { Config.unset with n_jobs := some (.int 2) },
+      .create (parallelBackendArgs (.str "threading") (some (.int 4))), .exit]
+    (runThreadV ⟨true, false, false⟩ Env.pinned TState.init ops).1.cfg ≠ Config.unset ∧
+    (runThread Env.pinned TState.init ops).1.cfg = Config.unset := by decide
+
+/-- Variant `contextVar` (seeded C17-r4-m1): thread 0 is inside `with parallel_config(n_jobs=3)` and
+starts thread 1 in a copy of its context — the variant's thread 1 sees `n_jobs=3`, joblib's starts
+from the defaults; a plain thread starts from the defaults in both. -/
+theorem context_var_counterexample :
+    let g0 : Global := fun _ => TState.init
+    let sched (k : SpawnKind) :=
+      [(0, Op.enter { Config.unset with n_jobs := some (.int 3) }), (0, Op.spawn 1 k)]
+    ((grunV ⟨false, true, false⟩ Env.pinned g0 (sched .copiedContext)).1 1).cfg ≠ Config.unset ∧
+    ((grunV ⟨false, true, false⟩ Env.pinned g0 (sched .toThread)).1 1).cfg ≠ Config.unset ∧
+    ((grunV ⟨false, true, false⟩ Env.pinned g0 (sched .plain)).1 1) = TState.init ∧
+    ((grun Env.pinned g0 (sched .copiedContext)).1 1) = TState.init := by decide
+
+/-- Variant `gabLiteralDefaults` (seeded C17-r4-m3): inside `with parallel_config(prefer="threads")`
+the variant's `get_active_backend()` reports the loky backend while `Parallel()` gets the threading
+backend; inside `parallel_config("loky", require="sharedmem")` it reports a backend without shared
+memory. joblib's reports the threading backend in both. -/
+theorem gab_literal_defaults_counterexample :
+    let c1 := { Config.unset with prefer := some (.str "threads") }
+    let c2 := { Config.unset with backend := some (.backend .loky (some 0)),
+                                  require := some (.str "sharedmem") }
+    let cls (r : Except Err GabObs) := r.toOption.map (·.backend.cls)
+    cls (getActiveBackendV ⟨false, false, true⟩ Env.pinned c1 none none none) = some .loky ∧
+    cls (getActiveBackendV Variant.code Env.pinned c1 none none none) = some .threading ∧
+    (parallelInit Env.pinned c1 Config.unset).toOption.map (·.backend.cls) = some .threading ∧
+    cls (getActiveBackendV ⟨false, false, true⟩ Env.pinned c2 none none none) = some .loky ∧
+    cls (getActiveBackendV Variant.code Env.pinned c2 none none none) = some .threading := by decide
+
 /-! ## Non-vacuity: the hypotheses are met by non-trivial instances -/
 
 /-- depth 3, width 2, an exception raised in the innermost block and caught one level up -/
@@ -552,5 +868,34 @@ example : ¬ ContextBackendReplaced Env.pinned { Config.unset with n_jobs := som
 example : (parallelInit Env.pinned { Config.unset with require := some (.str "sharedmem"), n_jobs := some (.int 4) }
     Config.unset).toOption.map (fun r => (r.backend.cls, r.n_jobs, r.require))
       = some (.threading, 4, .str "sharedmem") := by decide
+
+/-- a general program: a block whose body makes an object by a plain call, leaves it registered and
+raises; the exception is caught; then an object made by a plain call and `unregister()` out of order,
+twice, on an object of an exited block -/
+def exXProg : XProg :=
+  .try_
+    (.block { Config.unset with n_jobs := some (.int 2) }
+      (.create (parallelBackendArgs (.str "threading") (some (.int 4))) (.par Config.unset .raise)) .done)
+    (.par Config.unset
+      (.create { Config.unset with verbose := some (.int 7) } (.unreg 1 (.unreg 2 (.unreg 1 .done)))))
+
+example : (xrun exXProg TState.init).ops.length = 9 := by decide
+example : (xrun exXProg TState.init).raised = false := by decide
+/-- right after the block (4 steps: enter, create, par, exit) the defaults are back -/
+example : (runThread Env.pinned TState.init ((xrun exXProg TState.init).ops.take 4)).1.cfg = Config.unset := by
+  decide
+/-- …and the out-of-order `unregister()` calls end in the configuration object 1 saved -/
+example : (xrun exXProg TState.init).state.cfg = { Config.unset with n_jobs := some (.int 2) } := by decide
+example : (xrun exXProg TState.init).state.objs.length = 3 := by decide
+example : (xrun exProg.embed TState.init).state.cfg = Config.unset := by decide
+/-- the hypotheses of `gab_agrees_with_parallel` are met where the backend is replaced -/
+example : ∃ g r, getActiveBackend Env.pinned
+      { Config.unset with backend := some (.backend .loky (some 0)), n_jobs := some (.int 4),
+                          require := some (.str "sharedmem") } none none none = .ok g ∧
+    parallelInit Env.pinned
+      { Config.unset with backend := some (.backend .loky (some 0)), n_jobs := some (.int 4),
+                          require := some (.str "sharedmem") } Config.unset = .ok r ∧
+    g.backend.cls = .threading ∧ g.n_jobs = .int 1 ∧ r.n_jobs = 1 :=
+  ⟨_, _, rfl, rfl, by decide, by decide, by decide⟩
 
 end C17
